@@ -56,6 +56,15 @@ Theorem C15_coeff_relocated : forall m, in_shape (t_naxes t) m ->
   nth_error (t_coeffs t') (Z.to_nat (flat (t_naxes t') (pick pn m 0))) = nth_error (t_coeffs t) (Z.to_nat (flat (t_naxes t) m)).
 Proof. exact (thm_coeff_relocated K E C t Hwf junk p Hp). Qed.
 
+(* ... and that statement determines the new array completely: any list of the right length satisfying it is the model's
+   result. Tables too large for the literal list model to be run are judged by the statement, which by this theorem is the same
+   as comparing with the model's output. *)
+Theorem C15_coeff_relocation_determines_the_array : forall l : list C, length l = length (t_coeffs t) ->
+  (forall m, in_shape (t_naxes t) m ->
+     nth_error l (Z.to_nat (flat (t_naxes t') (pick pn m 0))) = nth_error (t_coeffs t) (Z.to_nat (flat (t_naxes t) m))) ->
+  l = t_coeffs t'.
+Proof. exact (thm_coeff_determined K E C t Hwf junk p Hp). Qed.
+
 Theorem C15_coeff_permutation : Permutation (t_coeffs t) (t_coeffs t').
 Proof. exact (thm_coeff_permutation K E C t Hwf junk p Hp). Qed.
 
